@@ -210,6 +210,8 @@ Definition emit_to (x : xstate) (pids : list nat) (act : option ident) (hist : l
        (x_exp x ++ map (fun p => (p, mk_xem act hist l (x_mem x))) pids).
 
 Definition all_pids (x : xstate) : list nat := seq 0 (length (x_procs x)).
+Fixpoint emit_to_n (x : xstate) (pids : list nat) (act : option ident) (hist : list arg) (l n : nat) : xstate :=
+  match n with 0 => x | S n' => emit_to_n (emit_to x pids act hist l) pids act hist l n' end.
 
 (* logger->EmitLogRecord(args...) and everything that is defined as such a call *)
 Definition x_variadic (c : cfg) (x : xstate) (l : nat) (args : list arg) (obs known : list tok) : sres :=
@@ -286,6 +288,17 @@ Definition xstep (c : cfg) (x : xstate) (o : lop) (obs known : list tok) : sres 
           if logger_enabled c l then finish_op x [plain [TB ln] "log_fields_as_supplied:logger_name"] obs known
           else finish_op x [plain [TB (map n2b kNoopLoggerName)] "disabled_emits_nothing:logger_name"] obs known
       | None => SIll
+      end
+  | LBurst t l n flush args =>
+      (* n emissions of the same arguments: every processor n more, each exactly as supplied *)
+      match eat_active obs with
+      | None => SFail (fail "format:active")
+      | Some (act, rest) =>
+          let x' := if logger_enabled c l then emit_to_n x (all_pids x) act args l n else x in
+          finish_op x' (if flush
+                        then [count_chunk x' (if logger_enabled c l then "each_processor_once:burst_exported_count"
+                                              else "disabled_emits_nothing:exported_count")]
+                        else []) rest known
       end
   end.
 
